@@ -182,6 +182,9 @@ def _np_grouped_op(
 
 
 def _nan_grouped_op(group_idx, array, func, fillna, *args, **kwargs):
+    if array.dtype.kind in "iub":
+        # no NaN to substitute (and the sentinel of a wider requested dtype does not fit a narrower input)
+        return func(group_idx, array, *args, **kwargs)
     if fillna in [dtypes.INF, dtypes.NINF]:
         fillna = dtypes._get_fill_value(kwargs.get("dtype", None) or array.dtype, fillna)
     result = func(group_idx, np.where(isnull(array), fillna, array), *args, **kwargs)
@@ -254,7 +257,8 @@ def mean(group_idx, array, *, axis=-1, size=None, fill_value=None, dtype=None):
         fill_value = 0
     out = sum(group_idx, array, axis=axis, size=size, dtype=dtype, fill_value=fill_value)
     with np.errstate(invalid="ignore", divide="ignore"):
-        out /= nanlen(group_idx, array, size=size, axis=axis, fill_value=0)
+        # not in place: the sums have an integer dtype when one was requested
+        out = out / nanlen(group_idx, array, size=size, axis=axis, fill_value=0)
     return out
 
 
@@ -263,7 +267,8 @@ def nanmean(group_idx, array, *, axis=-1, size=None, fill_value=None, dtype=None
         fill_value = 0
     out = nansum(group_idx, array, size=size, axis=axis, dtype=dtype, fill_value=fill_value)
     with np.errstate(invalid="ignore", divide="ignore"):
-        out /= nanlen(group_idx, array, size=size, axis=axis, fill_value=0)
+        # not in place: the sums have an integer dtype when one was requested
+        out = out / nanlen(group_idx, array, size=size, axis=axis, fill_value=0)
     return out
 
 
